@@ -203,3 +203,16 @@ PROPS["C17"] = dict(
     assumptions=SUB_ASSUME + ["the model contains an Alloc event only where one was written by hand (shiftor::Finder::new); the property is decided by the probe"],
     trusted=SUB_TRUSTED + ["the counting allocator sees every heap allocation of the calling thread (GlobalAlloc alloc/realloc/alloc_zeroed)"],
 )
+
+PROPS["C09"] = dict(
+    id="C09", coq_files=MEM_PROOF_FILES + ["Mem/IterProofs.v"] + ALL_SUB_PROOFS + ["Sub/CritFact.v", "Sub/MaxSuffixProofs.v", "Sub/TwoWayTier2.v", "Props/C09.v"],
+    gen=gens.gen_c09, oracle=gens.oracle_c09, nontrivial=gens.nontrivial_c09, shrink_fields=["h"],
+    builds=["debug", "release", "plain-release+alloconly", "plain-release+nofeatures", "release+avx2", "plain-release+nofeatures+avx2"], cert="rev",
+    rule="one case file (samples of the C01/C02/C06/C07 grids on the dispatched top-level functions, the SWAR and SSE2 searchers, and of the C03/C04 "
+         "memmem families) run through six builds: default features with hooks (debug, release), --no-default-features --features alloc, "
+         "--no-default-features, and -Ctarget-feature=+avx2 with and without std; the hooked builds also with the dispatcher forced to SSE2-only and "
+         "to the SWAR fallback (cases carrying cpu=); every output must equal the naive oracle and the model, hence each other; "
+         "non-trivial = haystack >= 8 bytes",
+    assumptions=SUB_ASSUME + ["NEON and simd128 are covered by the theorems (every arch value) and by the emulated builds of the thorough tier, not executed natively"],
+    trusted=SUB_TRUSTED,
+)
